@@ -48,7 +48,7 @@ Inductive SimpleB : bool -> bool -> stmt -> Prop :=
 | B_count inl inr n a : plain_rval mt n = true -> SimpleB true inr a -> SimpleB inl inr (SRepeat (LCount n) a)
 | B_infinite inl inr a : SimpleB true inr a -> SimpleB inl inr (SRepeat LInfinite a)
 | B_idx inl inr l v pre body : idx_form rt mt l v pre -> SimpleB true inr body -> SimpleB inl inr (SRepeat l body)
-| B_lights inl inr l x ov pre body : light_form rt mt l x ov pre -> SimpleB true false body -> SimpleB inl inr (SRepeat l body)
+| B_lights inl inr l x ov pre body : light_form rt mt l x ov pre -> SimpleB true inr body -> SimpleB inl inr (SRepeat l body)
 with SimpleBL : bool -> bool -> list stmt -> Prop :=
 | BL_nil inl inr : SimpleBL inl inr []
 | BL_cons inl inr st r : SimpleB inl inr st -> SimpleBL inl inr r -> SimpleBL inl inr (st :: r).
@@ -169,7 +169,7 @@ Definition ret_state (ss' : sstate) (s' : mstate) : Prop :=
 
 Definition returned (im : image) (ss : sstate) (s : mstate) (ss' : sstate) : Prop :=
   exists ret F, call_tail (m_frames s) = Some (ret, F) /\
-  exists n s' evs, esteps n im s = Some (s', evs) /\ ret_state ss' s' /\ m_pc s' = ret + 1 /\ m_frames s' = F /\ m_stack s' = m_stack s /\
+  exists n s' evs, esteps n im s = Some (s', evs) /\ ret_state ss' s' /\ m_pc s' = ret + 1 /\ m_frames s' = F /\ m_stack s' = ret_stack (m_frames s) (m_stack s) /\
                    rev (s_trace ss') = rev (s_trace ss) ++ evs.
 
 Definition outcome (inr : bool) (after : option Z) (im : image) (ss : sstate) (s : mstate) (sig : signal) (ss' : sstate) (code : program) : Prop :=
@@ -194,7 +194,8 @@ Definition routines_loaded (im : image) : Prop :=
 
 (* ---- composing runs ---- *)
 Lemma returned_rebase im ss s sa s1 n1 e1 ss' :
-  esteps n1 im s = Some (s1, e1) -> call_tail (m_frames s1) = call_tail (m_frames s) -> m_stack s1 = m_stack s ->
+  esteps n1 im s = Some (s1, e1) -> call_tail (m_frames s1) = call_tail (m_frames s) ->
+  ret_stack (m_frames s1) (m_stack s1) = ret_stack (m_frames s) (m_stack s) ->
   rev (s_trace sa) = rev (s_trace ss) ++ e1 -> returned im sa s1 ss' -> returned im ss s ss'.
 Proof.
   intros E1 Hct Hsk Ht1 (ret & F & Hc & n & s2 & e2 & E2 & Hr2 & Hpc2 & Hf2 & Hst2 & Ht2).
@@ -204,10 +205,28 @@ Qed.
 
 Lemma fr_eq_facts s1 s : (m_stack s1, fr s1) = (m_stack s, fr s) ->
   m_stack s1 = m_stack s /\ call_tail (m_frames s1) = call_tail (m_frames s) /\
-  (forall z, depth_ok (m_frames s) z -> depth_ok (m_frames s1) z).
+  (forall z, depth_ok (m_frames s) z -> depth_ok (m_frames s1) z) /\
+  ret_stack (m_frames s1) (m_stack s1) = ret_stack (m_frames s) (m_stack s).
 Proof.
   intros H. injection H as H1 H2. unfold fr in H2. split; [exact H1|]. split; [apply call_tail_fr_eq; exact H2|].
-  intros z Hd. apply (depth_ok_fr_eq (m_frames s) (m_frames s1) z); [symmetry; exact H2|exact Hd].
+  split; [intros z Hd; apply (depth_ok_fr_eq (m_frames s) (m_frames s1) z); [symmetry; exact H2|exact Hd]|].
+  rewrite H1. apply ret_stack_fr_eq. exact H2.
+Qed.
+
+(* a state inside a loop that was opened on the stack of s (the names of a loop over lights may lie above it): RETURN would leave
+   what it leaves at s *)
+Lemma loop_ret_stack s sx lv r extra : m_frames sx = FLoop lv (zlength (m_stack s)) :: r -> erase r = erase (m_frames s) ->
+  m_stack sx = extra ++ m_stack s -> depth_ok (m_frames s) (zlength (m_stack s)) ->
+  ret_stack (m_frames sx) (m_stack sx) = ret_stack (m_frames s) (m_stack s).
+Proof. intros Hf He Hs Hd. rewrite Hf, Hs. apply ret_stack_in_loop; assumption. Qed.
+Lemma loop_states_ret_stack s sa sb lva ra lvb rb :
+  m_frames sa = FLoop lva (zlength (m_stack s)) :: ra -> erase ra = erase (m_frames s) -> m_stack sa = m_stack s ->
+  m_frames sb = FLoop lvb (zlength (m_stack s)) :: rb -> erase rb = erase (m_frames s) -> m_stack sb = m_stack s ->
+  depth_ok (m_frames s) (zlength (m_stack s)) ->
+  ret_stack (m_frames sa) (m_stack sa) = ret_stack (m_frames sb) (m_stack sb).
+Proof.
+  intros Hfa Hea Hsa Hfb Heb Hsb Hd.
+  rewrite (loop_ret_stack s sa lva ra [] Hfa Hea Hsa Hd), (loop_ret_stack s sb lvb rb [] Hfb Heb Hsb Hd). reflexivity.
 Qed.
 
 Lemma outcome_after_steps inr after im ss s sa s1 n1 e1 sig ss' c2 c :
@@ -220,8 +239,8 @@ Proof.
     split; [rewrite Hpc2; exact Hpc|]. split; [rewrite Hst2; exact Hst1|]. rewrite Ht2, Ht1, app_assoc. reflexivity.
   - right. left. split; [exact Hsig|]. exists a. split; [exact Ha|]. exists (n1 + n)%nat, s2, (e1 ++ e2). split; [eapply esteps_app; eassumption|]. split; [exact Hs2|].
     split; [rewrite Hpc2, Hpc; reflexivity|]. split; [rewrite Hst2; exact Hst1|]. rewrite Ht2, Ht1, app_assoc. reflexivity.
-  - right. right. split; [exact Hinr|]. exists v. split; [exact Hsig|]. destruct (fr_eq_facts s1 s Hst1) as [Hsk [Hct _]].
-    exact (returned_rebase im ss s sa s1 n1 e1 ss' E1 Hct Hsk Ht1 Hret).
+  - right. right. split; [exact Hinr|]. exists v. split; [exact Hsig|]. destruct (fr_eq_facts s1 s Hst1) as [_ [Hct [_ Hrs]]].
+    exact (returned_rebase im ss s sa s1 n1 e1 ss' E1 Hct Hrs Ht1 Hret).
 Qed.
 
 Lemma sim_to_after_steps im ss s sa s1 n1 e1 ss' t :
@@ -368,9 +387,9 @@ Proof.
     set (s1 := put_vm s (DReg R_RESULT) x k) in *.
     assert (Hs1 : sim ss s1) by (apply sim_put_reg_hidden; [exact Hsim|reflexivity|reflexivity]).
     destruct (Hir eq_refl) as (ret & F & Hct).
-    set (s2 := advance (with_pc (with_stack (with_frames s1 F) (m_stack s1)) ret)).
+    set (s2 := advance (with_pc (with_stack (with_frames s1 F) (ret_stack (m_frames s1) (m_stack s1))) ret)).
     assert (E2 : esteps 1 im s1 = Some (s2, [])).
-    { apply (estep1 im s1 _ _ _ Hfr). cbn [Machine.exec i_op I0]. rewrite (do_return_steps s1 ret F Hct (Hd eq_refl)). reflexivity. }
+    { apply (estep1 im s1 _ _ _ Hfr). cbn [Machine.exec i_op I0]. rewrite (do_return_steps s1 ret F Hct). reflexivity. }
     right. right. split; [reflexivity|]. exists x. split; [reflexivity|]. exists ret, F. split; [exact Hct|].
     exists (n + 1)%nat, s2, ([] ++ []). split; [eapply esteps_app; eassumption|].
     split; [destruct Hs1 as [Hr1 Hf1 Hg1 Hv1 Hst1 Hw1 Hu1]; repeat split; assumption|].
@@ -386,9 +405,9 @@ Proof.
       rewrite (exec_moveq im s PNone (DReg R_RESULT) VNone eq_refl eq_refl). apply lift_put; reflexivity. }
     assert (Hs1 : sim ss s1) by (apply sim_put_reg_hidden; [exact Hsim|reflexivity|reflexivity]).
     destruct (Hir eq_refl) as (ret & F & Hct).
-    set (s2 := advance (with_pc (with_stack (with_frames s1 F) (m_stack s1)) ret)).
+    set (s2 := advance (with_pc (with_stack (with_frames s1 F) (ret_stack (m_frames s1) (m_stack s1))) ret)).
     assert (E2 : esteps 1 im s1 = Some (s2, [])).
-    { apply (estep1 im s1 _ _ _ Hf2). cbn [Machine.exec i_op I0]. rewrite (do_return_steps s1 ret F Hct (Hd eq_refl)). reflexivity. }
+    { apply (estep1 im s1 _ _ _ Hf2). cbn [Machine.exec i_op I0]. rewrite (do_return_steps s1 ret F Hct). reflexivity. }
     right. right. split; [reflexivity|]. exists VNone. split; [reflexivity|]. exists ret, F. split; [exact Hct|].
     exists (1 + 1)%nat, s2, ([] ++ []). split; [eapply esteps_app; eassumption|].
     split; [destruct Hs1 as [Hr1 Hf1' Hg1 Hv1 Hst1 Hw1 Hu1]; repeat split; assumption|].
@@ -442,13 +461,13 @@ Proof.
     destruct (proj1 (IHfuel fuel ltac:(lia)) false true (rd_body d) (Hbodies f d Hf) None im ssb s3 sgb sb fuel (le_n _) Hload Hin3 Hir3 Hd3 Hs3 Hbcode3 Eb)
       as [[Hsgb (n4 & s4 & e4 & E4 & Hs4 & Hpc4 & Hst4 & Ht4)]|[[Hsgb (a' & Ha' & _)]|[_ [v [Hsgb (ret' & F' & Hct' & n4 & s4 & e4 & E4 & Hr4 & Hpc4 & Hfr4 & Hst4 & Ht4)]]]]].
     + (* the body runs into END f: back to the END_CTX of the call *)
-      destruct (fr_eq_facts s4 s3 Hst4) as [Hsk4 [Hct4 Hdp4]].
-      assert (Hd4 : depth_ok (m_frames s4) (zlength (m_stack s4))) by (rewrite Hsk4; apply Hdp4; exact (Hd3 eq_refl)).
+      destruct (fr_eq_facts s4 s3 Hst4) as [Hsk4 [Hct4 [Hdp4 Hrs4]]].
+      assert (Hrs4' : ret_stack (m_frames s4) (m_stack s4) = m_stack s4) by (rewrite Hrs4, Hsk4; reflexivity).
       rewrite Hct3 in Hct4.
       set (s5 := with_pc (with_stack (with_frames s4 F) (m_stack s4)) ret).
       assert (E5 : esteps 1 im s4 = Some (s5, [])).
       { assert (Hfend' : fetch im (m_pc s4) = Some (I1 OC_END (PStr f))) by (rewrite Hpc4; exact Hfend).
-        apply (estep1 im s4 _ _ _ Hfend'). cbn [Machine.exec i_op i_p0 I1]. rewrite (do_return_steps s4 ret F Hct4 Hd4). reflexivity. }
+        apply (estep1 im s4 _ _ _ Hfend'). cbn [Machine.exec i_op i_p0 I1]. rewrite (do_return_steps s4 ret F Hct4), Hrs4'. reflexivity. }
       set (s6 := advance s5).
       assert (E6 : esteps 1 im s5 = Some (s6, [])) by (apply (estep1 im s5 _ _ _ Hfe'); reflexivity).
       exists ((1 + (n2 + 1)) + (n4 + (1 + 1)))%nat, s6, (([] ++ ([] ++ [])) ++ (e4 ++ ([] ++ []))).
@@ -576,7 +595,7 @@ Proof.
     { induction f as [|f IHf]; intros ss1 sx sg ssx lv r Hlef Hsx Hpcx Hfrx Herx Hstx Hit; [discriminate|].
       assert (Hctx : call_tail (m_frames sx) = call_tail (m_frames s)) by (rewrite Hfrx; cbn [call_tail]; apply call_tail_fr_eq; exact Herx).
       assert (Hdx : in_depth_ok inr sx).
-      { intros Hi. rewrite Hfrx, Hstx. cbn [depth_ok]. split; [reflexivity|]. apply (depth_ok_fr_eq (m_frames s) r); [symmetry; exact Herx|exact (Hd Hi)]. }
+      { intros Hi. rewrite Hfrx, Hstx. cbn [depth_ok]. split; [apply Z.le_refl|]. apply (depth_ok_fr_eq (m_frames s) r); [symmetry; exact Herx|exact (Hd Hi)]. }
       assert (Hirx : in_ret_ok inr (m_frames sx)) by (intros Hi; destruct (Hir Hi) as (ret & F & H); exists ret, F; rewrite Hctx; exact H).
       rewrite iterate_while in Hit.
       destruct (eval_rval rt mt f false ss1 c) as [x sa|e sa|sa] eqn:Ev; cbn [sbind] in Hit; try discriminate.
@@ -615,7 +634,7 @@ Proof.
             split; [eapply esteps_app; [exact E25|exact E6]|].
             split; [exact Hs6|]. split; [exact Hpc6|]. split; [exact Hst6|]. cbn [app]. rewrite Ht6, Ht4, app_nil_r, app_assoc. reflexivity.
           * right. split; [exact Hinr|]. exists v. split; [exact Hsg|].
-            apply (returned_rebase im ss1 sx sb s5 (n + (1 + (n3 + 1)))%nat ([] ++ ([] ++ (e4 ++ []))) ssx E25); [|rewrite Hstx; exact Hsk4|cbn [app]; rewrite app_nil_r; exact Ht4|exact Hret].
+            apply (returned_rebase im ss1 sx sb s5 (n + (1 + (n3 + 1)))%nat ([] ++ ([] ++ (e4 ++ []))) ssx E25); [|exact (loop_states_ret_stack s s5 sx lv r4 lv r Hfk4 Her4 Hsk4 Hfrx Herx Hstx (Hd Hinr))|cbn [app]; rewrite app_nil_r; exact Ht4|exact Hret].
             change (m_frames s5) with (m_frames s4). rewrite Hfk4, Hctx. cbn [call_tail]. apply call_tail_fr_eq. exact Her4.
         + (* the body breaks: it has jumped to END_LOOP *)
           injection Ha' as Ha'. subst a'. injection Hit as Hsg Hss. subst ssx.
@@ -646,7 +665,7 @@ Proof.
       split; [rewrite Hpcy; unfold kT, kB, zlength; rewrite !app_length; cbn [length]; rewrite !Nat2Z.inj_add; lia|].
       split; [exact Hsty|exact Hty].
     + right. right. split; [exact Hinr|]. exists v. split; [exact Hsig|].
-      exact (returned_rebase im ss s ss s1 1%nat [] ss' E1 eq_refl eq_refl (eq_sym (app_nil_r _)) Hret).
+      exact (returned_rebase im ss s ss s1 1%nat [] ss' E1 eq_refl (loop_ret_stack s s1 [] (m_frames s) [] eq_refl eq_refl eq_refl (Hd Hinr)) (eq_sym (app_nil_r _)) Hret).
   - (* counted loop *)
     intros inl inr cn a Hn Ha IHa after im ss s sig ss' fuel Hle Hload _ Hir Hd Hsim Hcode He.
     destruct fuel as [|[|fuel]]; try discriminate. rewrite exec_count in He.
@@ -687,7 +706,7 @@ Proof.
     { induction f as [|f IHf]; intros ss1 sx sg ssx lv c0 r Hlef Hsx Hpcx Hfrx Herx Hlvx Hstx Hit; [discriminate|].
       assert (Hctx : call_tail (m_frames sx) = call_tail (m_frames s)) by (rewrite Hfrx; cbn [call_tail]; apply call_tail_fr_eq; exact Herx).
       assert (Hdx : in_depth_ok inr sx).
-      { intros Hi. rewrite Hfrx, Hstx. cbn [depth_ok]. split; [reflexivity|]. apply (depth_ok_fr_eq (m_frames s) r); [symmetry; exact Herx|exact (Hd Hi)]. }
+      { intros Hi. rewrite Hfrx, Hstx. cbn [depth_ok]. split; [apply Z.le_refl|]. apply (depth_ok_fr_eq (m_frames s) r); [symmetry; exact Herx|exact (Hd Hi)]. }
       assert (Hirx : in_ret_ok inr (m_frames sx)) by (intros Hi; destruct (Hir Hi) as (ret & F & H); exists ret, F; rewrite Hctx; exact H).
       rewrite iterate_count in Hit.
       destruct (positive c0) as [go|e] eqn:Epos; cbn [lift_res sbind] in Hit; [|discriminate].
@@ -732,7 +751,7 @@ Proof.
             split; [eapply esteps_app; [exact E37|exact E8]|].
             split; [exact Hs8|]. split; [exact Hpc8|]. split; [exact Hst8|]. cbn [app]. rewrite Ht8, Ht5, app_nil_r, app_assoc. reflexivity.
           * right. split; [exact Hinr|]. exists v. split; [exact Hsg|].
-            apply (returned_rebase im ss1 sx sb s7 (4 + (1 + (n5 + (4 + 1))))%nat ([] ++ ([] ++ (e5 ++ ([] ++ [])))) ssx E37); [|rewrite Hstx; exact Hsk5|cbn [app]; rewrite app_nil_r; exact Ht5|exact Hret].
+            apply (returned_rebase im ss1 sx sb s7 (4 + (1 + (n5 + (4 + 1))))%nat ([] ++ ([] ++ (e5 ++ ([] ++ [])))) ssx E37); [|refine (loop_states_ret_stack s s7 sx (lv_set lv LV_COUNTER c1) r5 lv r _ Her5 Hsk5 Hfrx Herx Hstx (Hd Hinr)); unfold s7, s6; cbn [with_pc with_counter m_frames]; rewrite Hfk5; reflexivity|cbn [app]; rewrite app_nil_r; exact Ht5|exact Hret].
             unfold s7, s6. cbn [with_pc with_counter m_frames]. rewrite Hfk5, Hctx. cbn [call_tail]. apply call_tail_fr_eq. exact Her5.
         + (* the body breaks: it has jumped over the count-down to END_LOOP *)
           injection Ha' as Ha'. subst a'. injection Hit as Hsg Hss. subst ssx.
@@ -771,7 +790,7 @@ Proof.
       split; [exact Hsty|exact Hty].
     + right. right. split; [exact Hinr|]. exists v. split; [exact Hsig|].
       assert (E12 : esteps (1 + nN) im s = Some (s2, [] ++ [])) by (eapply esteps_app; [exact E1|exact HnN]).
-      exact (returned_rebase im ss s ss s2 (1 + nN)%nat ([] ++ []) ss' E12 eq_refl eq_refl (eq_sym (app_nil_r _)) Hret).
+      exact (returned_rebase im ss s ss s2 (1 + nN)%nat ([] ++ []) ss' E12 eq_refl (loop_ret_stack s s2 (lv_set [] LV_COUNTER cnt) (m_frames s) [] eq_refl eq_refl eq_refl (Hd Hinr)) (eq_sym (app_nil_r _)) Hret).
   - (* endless repeat: left only by break *)
     intros inl inr a Ha IHa after im ss s sig ss' fuel Hle Hload _ Hir Hd Hsim Hcode He.
     destruct fuel as [|[|fuel]]; try discriminate. rewrite exec_infinite in He.
@@ -800,7 +819,7 @@ Proof.
     { induction f as [|f IHf]; intros ss1 sx sg ssx lv r Hlef Hsx Hpcx Hfrx Herx Hstx Hit; [discriminate|].
       assert (Hctx : call_tail (m_frames sx) = call_tail (m_frames s)) by (rewrite Hfrx; cbn [call_tail]; apply call_tail_fr_eq; exact Herx).
       assert (Hdx : in_depth_ok inr sx).
-      { intros Hi. rewrite Hfrx, Hstx. cbn [depth_ok]. split; [reflexivity|]. apply (depth_ok_fr_eq (m_frames s) r); [symmetry; exact Herx|exact (Hd Hi)]. }
+      { intros Hi. rewrite Hfrx, Hstx. cbn [depth_ok]. split; [apply Z.le_refl|]. apply (depth_ok_fr_eq (m_frames s) r); [symmetry; exact Herx|exact (Hd Hi)]. }
       assert (Hirx : in_ret_ok inr (m_frames sx)) by (intros Hi; destruct (Hir Hi) as (ret & F & H); exists ret, F; rewrite Hctx; exact H).
       rewrite iterate_infinite in Hit.
       assert (Hftx : fetch im (m_pc sx) = Some (I2 OC_MOVEQ (PBool true) (PReg R_RESULT))) by (rewrite Hpcx; exact Hft).
@@ -837,7 +856,7 @@ Proof.
           split; [eapply esteps_app; [exact E25|exact E6]|].
           split; [exact Hs6|]. split; [exact Hpc6|]. split; [exact Hst6|]. cbn [app]. rewrite Ht6, Ht4, app_nil_r, app_assoc. reflexivity.
         * right. split; [exact Hinr|]. exists v. split; [exact Hsg|].
-          apply (returned_rebase im ss1 sx sb s5 (1 + (1 + (n3 + 1)))%nat ([] ++ ([] ++ (e4 ++ []))) ssx E25); [|rewrite Hstx; exact Hsk4|cbn [app]; rewrite app_nil_r; exact Ht4|exact Hret].
+          apply (returned_rebase im ss1 sx sb s5 (1 + (1 + (n3 + 1)))%nat ([] ++ ([] ++ (e4 ++ []))) ssx E25); [|exact (loop_states_ret_stack s s5 sx lv r4 lv r Hfk4 Her4 Hsk4 Hfrx Herx Hstx (Hd Hinr))|cbn [app]; rewrite app_nil_r; exact Ht4|exact Hret].
           change (m_frames s5) with (m_frames s4). rewrite Hfk4, Hctx. cbn [call_tail]. apply call_tail_fr_eq. exact Her4.
       + injection Ha' as Ha'. subst a'. injection Hit as Hsg Hss. subst ssx.
         destruct (loop_frame_kept s4 s3 s lv d r Hst4 Hsk3 Hfk3 Herx) as [Hsk4 (r4 & Hfk4 & Her4)].
@@ -857,7 +876,7 @@ Proof.
       split; [rewrite Hpcy; unfold kB, zlength; rewrite !app_length; cbn [length]; rewrite !Nat2Z.inj_add; lia|].
       split; [exact Hsty|exact Hty].
     + right. right. split; [exact Hinr|]. exists v. split; [exact Hsig|].
-      exact (returned_rebase im ss s ss s1 1%nat [] ss' E1 eq_refl eq_refl (eq_sym (app_nil_r _)) Hret).
+      exact (returned_rebase im ss s ss s1 1%nat [] ss' E1 eq_refl (loop_ret_stack s s1 [] (m_frames s) [] eq_refl eq_refl eq_refl (Hd Hinr)) (eq_sym (app_nil_r _)) Hret).
   - (* loops with an index variable: repeat with v from a to b, repeat n with v from a to b, repeat n with v cycle *)
     intros inl inr l v N a Hform Ha IHa after im ss s sig ss' fuel Hle Hload _ Hir Hd Hsim Hcode He.
     destruct Hform as (Hccode & HnrN & Hprep).
@@ -898,7 +917,7 @@ Proof.
     { induction f as [|f IHf]; intros ss1 sx sg ssx lv c0 r Hlef Hsx Hpcx Hfrx Herx Hlvx HlvI Hstx Hit; [discriminate|].
       assert (Hctx : call_tail (m_frames sx) = call_tail (m_frames s)) by (rewrite Hfrx; cbn [call_tail]; apply call_tail_fr_eq; exact Herx).
       assert (Hdx : in_depth_ok inr sx).
-      { intros Hi. rewrite Hfrx, Hstx. cbn [depth_ok]. split; [reflexivity|]. apply (depth_ok_fr_eq (m_frames s) r); [symmetry; exact Herx|exact (Hd Hi)]. }
+      { intros Hi. rewrite Hfrx, Hstx. cbn [depth_ok]. split; [apply Z.le_refl|]. apply (depth_ok_fr_eq (m_frames s) r); [symmetry; exact Herx|exact (Hd Hi)]. }
       assert (Hirx : in_ret_ok inr (m_frames sx)) by (intros Hi; destruct (Hir Hi) as (ret & F & H); exists ret, F; rewrite Hctx; exact H).
       rewrite iterate_idx in Hit.
       destruct (positive c0) as [go|e] eqn:Epos; cbn [lift_res sbind] in Hit; [|discriminate].
@@ -946,7 +965,7 @@ Proof.
             split; [eapply esteps_app; [exact E37|exact E8]|].
             split; [exact Hs8|]. split; [exact Hpc8|]. split; [exact Hst8|]. cbn [app]. rewrite Ht8, Htr, Ht5, app_nil_r, app_assoc. reflexivity.
           * right. split; [exact Hinr|]. exists w. split; [exact Hsg|].
-            apply (returned_rebase im ss1 sx (assign sb v nv) s7 (4 + (1 + (n5 + (8 + 1))))%nat ([] ++ ([] ++ (e5 ++ ([] ++ [])))) ssx E37); [|unfold s7; cbn [with_pc m_stack]; rewrite Hsk6, Hstx; exact Hsk5|cbn [app]; rewrite app_nil_r, Htr; exact Ht5|exact Hret].
+            apply (returned_rebase im ss1 sx (assign sb v nv) s7 (4 + (1 + (n5 + (8 + 1))))%nat ([] ++ ([] ++ (e5 ++ ([] ++ [])))) ssx E37); [|refine (loop_states_ret_stack s s7 sx lv6 r6 lv r Hfk6 _ _ Hfrx Herx Hstx (Hd Hinr)); [rewrite Her6; exact Her5|unfold s7; cbn [with_pc m_stack]; rewrite Hsk6; exact Hsk5]|cbn [app]; rewrite app_nil_r, Htr; exact Ht5|exact Hret].
             unfold s7. cbn [with_pc m_frames]. rewrite Hfk6, Hctx. cbn [call_tail]. apply call_tail_fr_eq. rewrite Her6. exact Her5.
         + (* the body breaks: it has jumped over the count-down to END_LOOP *)
           injection Ha' as Ha'. subst a'. injection Hit as Hsg Hss. subst ssx.
@@ -986,16 +1005,16 @@ Proof.
       split; [exact Hsty|]. rewrite Hty, Htr0. reflexivity.
     + right. right. split; [exact Hinr|]. exists w. split; [exact Hsig|].
       assert (E12 : esteps (1 + nN) im s = Some (s2, [] ++ [])) by (eapply esteps_app; [exact E1|exact HnN]).
-      apply (returned_rebase im ss s ssp s2 (1 + nN)%nat ([] ++ []) ss' E12); [|exact Hsk2|rewrite Htr0; symmetry; apply app_nil_r|exact Hret].
+      apply (returned_rebase im ss s ssp s2 (1 + nN)%nat ([] ++ []) ss' E12); [|exact (loop_ret_stack s s2 lv2 r2 [] Hfk2 Her2 Hsk2 (Hd Hinr))|rewrite Htr0; symmetry; apply app_nil_r|exact Hret].
       rewrite Hfk2. cbn [call_tail]. apply call_tail_fr_eq. exact Her2.
   - (* loops over lights, groups or locations: one name per pass, popped into the loop variable *)
-    intros inl inr l x ov N a Hform Ha IHa after im ss s sig ss' fuel Hle Hload _ _ _ Hsim Hcode He.
+    intros inl inr l x ov N a Hform Ha IHa after im ss s sig ss' fuel Hle Hload _ Hir Hd Hsim Hcode He.
     destruct Hform as (Hccode & HnrN & Hprep).
     rewrite c_loop_after, Hccode in *.
     set (K := zlength (counter_post ov)) in *.
     assert (HlenP : len (counter_post ov) = K) by (apply len_no_routine; apply counter_post_no_routine).
     rewrite HlenP in *.
-    pose proof (proj1 simpleB_no_routine true false a Ha (Some (K + 1))) as Hnrb.
+    pose proof (proj1 simpleB_no_routine true inr a Ha (Some (K + 1))) as Hnrb.
     set (B := c_stmt rt mt false (Some (K + 1)) a) in *.
     assert (Hnri : forallb not_routine ([I1 OC_POP (PStr x)] ++ B ++ counter_post ov) = true) by (rewrite !forallb_app, Hnrb, counter_post_no_routine; reflexivity).
     rewrite (len_no_routine _ Hnri) in *. change (len counter_test) with 4 in *.
@@ -1024,8 +1043,9 @@ Proof.
               (f <= fuel0)%nat -> sim ss1 sx -> m_pc sx = P0 + 1 + kN -> m_frames sx = FLoop lv d :: r -> erase r = erase (m_frames s) ->
               lv_get lv LV_COUNTER = Some (VInt (Z.of_nat (length names))) -> idx_ok ov idx lv -> m_stack sx = names ++ m_stack s ->
               iterate rt mt f false ss1 None (Some (VInt (Z.of_nat (length names)))) idx (Some (x, names)) a = ROk sg ssx ->
-              sg = SigNormal /\ exists n sy evs, esteps n im sx = Some (sy, evs) /\ sim ssx sy /\ m_pc sy = P0 + (kN + kB + K + 9) /\
-                                          (m_stack sy, fr sy) = (m_stack s, fr s) /\ rev (s_trace ssx) = rev (s_trace ss1) ++ evs).
+              (sg = SigNormal /\ exists n sy evs, esteps n im sx = Some (sy, evs) /\ sim ssx sy /\ m_pc sy = P0 + (kN + kB + K + 9) /\
+                                          (m_stack sy, fr sy) = (m_stack s, fr s) /\ rev (s_trace ssx) = rev (s_trace ss1) ++ evs) \/
+              (inr = true /\ exists w, sg = SigReturn w /\ returned im ss1 sx ssx)).
     { induction f as [|f IHf]; intros ss1 sx sg ssx lv names r Hlef Hsx Hpcx Hfrx Herx Hlvx Hidx Hstx Hit; [discriminate|].
       rewrite iterate_lights in Hit.
       set (c0 := VInt (Z.of_nat (length names))) in *.
@@ -1050,11 +1070,15 @@ Proof.
         destruct (pop_var_step im ss1 s4 x v (rest ++ m_stack s) lv d r Hs4 Hfp4 Hst4 Hfr4) as (s5 & r5 & E5 & Hs5 & Hpc5 & Hfr5 & Her5 & Hst5).
         assert (Hpc5' : m_pc s5 = P0 + 1 + kN + 4 + 1 + 1) by (rewrite Hpc5; unfold s4; cbn [with_pc m_pc]; rewrite Hpc3; reflexivity).
         assert (HcB5 : code_at im (m_pc s5) B) by (rewrite Hpc5'; exact HcB).
-        assert (Hir5 : in_ret_ok false (m_frames s5)) by (intros H; discriminate).
-        assert (Hd5 : in_depth_ok false s5) by (intros H; discriminate).
+        assert (Her5' : erase r5 = erase (m_frames s)) by (rewrite Her5; exact Herx).
+        assert (Hct5 : call_tail (m_frames s5) = call_tail (m_frames s)) by (rewrite Hfr5; cbn [call_tail]; apply call_tail_fr_eq; exact Her5').
+        assert (Hctx : call_tail (m_frames sx) = call_tail (m_frames s)) by (rewrite Hfrx; cbn [call_tail]; apply call_tail_fr_eq; exact Herx).
+        assert (Hir5 : in_ret_ok inr (m_frames s5)) by (intros Hi; destruct (Hir Hi) as (ret & F & H); exists ret, F; rewrite Hct5; exact H).
+        assert (Hd5 : in_depth_ok inr s5) by (intros Hi; rewrite Hfr5, Hst5; exact (depth_ok_in_loop lv r5 rest (m_frames s) (m_stack s) Her5' (Hd Hi))).
+        assert (E45 : esteps (4 + (1 + 1)) im sx = Some (s5, [] ++ ([] ++ []))) by (eapply esteps_app; [exact Et|eapply esteps_app; [exact Ej|exact E5]]).
         destruct (assign_other_fields ss1 x v) as (_ & _ & Htrx).
         destruct (IHa (Some (K + 1)) im (assign ss1 x v) s5 sgb sb f ltac:(lia) Hload Hin1 Hir5 Hd5 Hs5 HcB5 Eb)
-          as [[Hsgb (n6 & s6 & e6 & E6 & Hs6 & Hpc6 & Hst6 & Ht6)]|[[Hsgb (a' & Ha' & (n6 & s6 & e6 & E6 & Hs6 & Hpc6 & Hst6 & Ht6))]|[Hinr _]]]; [| |discriminate Hinr]; subst sgb.
+          as [[Hsgb (n6 & s6 & e6 & E6 & Hs6 & Hpc6 & Hst6 & Ht6)]|[[Hsgb (a' & Ha' & (n6 & s6 & e6 & E6 & Hs6 & Hpc6 & Hst6 & Ht6))]|[Hinr [w [Hsgb Hret]]]]]; subst sgb.
         + (* the body ends normally: count down, step the `with` variable, back to the test *)
           destruct (sub1 c0) as [c1|e] eqn:Esub; cbn [bind] in Hit; [|discriminate].
           pose proof (sub1_len v rest c1 Esub) as Hc1. subst c1.
@@ -1071,7 +1095,7 @@ Proof.
           set (s8 := with_pc s7 (m_pc s7 + - (4 + 1 + (1 + kB + K)))) in *.
           assert (E48 : esteps (4 + (1 + (1 + (n6 + (n7 + 1))))) im sx = Some (s8, [] ++ ([] ++ ([] ++ (e6 ++ ([] ++ [])))))).
           { eapply esteps_app; [exact Et|eapply esteps_app; [exact Ej|eapply esteps_app; [exact E5|eapply esteps_app; [exact E6|eapply esteps_app; [exact E7|exact Ejb]]]]]. }
-          destruct (IHf ssn s8 sg ssx lv7 rest r7 ltac:(lia) (sim_with_pc _ s7 _ Hs7)) as [Hsg (n9 & s9 & e9 & E9 & Hs9 & Hpc9 & Hst9 & Ht9)].
+          destruct (IHf ssn s8 sg ssx lv7 rest r7 ltac:(lia) (sim_with_pc _ s7 _ Hs7)) as [[Hsg (n9 & s9 & e9 & E9 & Hs9 & Hpc9 & Hst9 & Ht9)]|[Hinr [w [Hsg Hret]]]].
           { unfold s8. cbn [with_pc m_pc]. rewrite Hpc7, Hpc6'. lia. }
           { exact Hfr7. }
           { rewrite Her7, Her6, Her5. exact Herx. }
@@ -1079,9 +1103,16 @@ Proof.
           { exact Hidx7. }
           { unfold s8. cbn [with_pc m_stack]. rewrite Hsk7, Hsk6. exact Hst5. }
           { exact Hit. }
-          split; [exact Hsg|]. exists ((4 + (1 + (1 + (n6 + (n7 + 1))))) + n9)%nat, s9, (([] ++ ([] ++ ([] ++ (e6 ++ ([] ++ []))))) ++ e9).
-          split; [eapply esteps_app; [exact E48|exact E9]|].
-          split; [exact Hs9|]. split; [exact Hpc9|]. split; [exact Hst9|]. cbn [app]. rewrite Ht9, Htr7, Ht6, Htrx, app_nil_r, app_assoc. reflexivity.
+          * left. split; [exact Hsg|]. exists ((4 + (1 + (1 + (n6 + (n7 + 1))))) + n9)%nat, s9, (([] ++ ([] ++ ([] ++ (e6 ++ ([] ++ []))))) ++ e9).
+            split; [eapply esteps_app; [exact E48|exact E9]|].
+            split; [exact Hs9|]. split; [exact Hpc9|]. split; [exact Hst9|]. cbn [app]. rewrite Ht9, Htr7, Ht6, Htrx, app_nil_r, app_assoc. reflexivity.
+          * right. split; [exact Hinr|]. exists w. split; [exact Hsg|].
+            assert (Her7' : erase r7 = erase (m_frames s)) by (rewrite Her7, Her6; exact Her5').
+            assert (Hf8 : m_frames s8 = FLoop lv7 d :: r7) by exact Hfr7.
+            assert (Hs8k : m_stack s8 = rest ++ m_stack s) by (unfold s8; cbn [with_pc m_stack]; rewrite Hsk7, Hsk6; exact Hst5).
+            apply (returned_rebase im ss1 sx ssn s8 (4 + (1 + (1 + (n6 + (n7 + 1)))))%nat ([] ++ ([] ++ ([] ++ (e6 ++ ([] ++ []))))) ssx E48); [| |cbn [app]; rewrite app_nil_r, Htr7, Ht6, Htrx; reflexivity|exact Hret].
+            { rewrite Hf8, Hctx. cbn [call_tail]. apply call_tail_fr_eq. exact Her7'. }
+            { rewrite (loop_ret_stack s s8 lv7 r7 rest Hf8 Her7' Hs8k (Hd Hinr)), (loop_ret_stack s sx lv r (v :: rest) Hfrx Herx Hstx (Hd Hinr)). reflexivity. }
         + (* the body breaks: END_LOOP drops the names not yet visited *)
           assert (Ha'' : a' = K + 1) by (injection Ha' as H; rewrite <- H; reflexivity). clear Ha'. subst a'. injection Hit as Hsg Hss. subst ssx.
           destruct (loop_frame_kept_any s6 s5 lv d r5 Hst6 Hfr5) as [Hsk6 (r6 & Hfr6 & Her6)].
@@ -1091,21 +1122,26 @@ Proof.
           assert (Her6' : erase r6 = erase (m_frames s)) by (rewrite Her6, Her5; exact Herx).
           assert (Hsk6' : m_stack s6 = rest ++ m_stack s) by (rewrite Hsk6; exact Hst5).
           destruct (end_loop_step_extra im sb s6 s lv r6 rest Hs6 Hfe6 Hfr6 Her6' Hsk6') as (s7 & E7 & Hs7 & Hpc7 & Hst7).
-          split; [auto|]. exists (4 + (1 + (1 + (n6 + 1))))%nat, s7, ([] ++ ([] ++ ([] ++ (e6 ++ [])))).
+          left. split; [auto|]. exists (4 + (1 + (1 + (n6 + 1))))%nat, s7, ([] ++ ([] ++ ([] ++ (e6 ++ [])))).
           split; [eapply esteps_app; [exact Et|eapply esteps_app; [exact Ej|eapply esteps_app; [exact E5|eapply esteps_app; [exact E6|exact E7]]]]|].
           split; [exact Hs7|]. split; [rewrite Hpc7, Hpc6, Hpc5'; fold B; fold kB; lia|].
           split; [exact Hst7|]. cbn [app]. rewrite app_nil_r, Ht6, Htrx. reflexivity.
+        + (* the body returns: the names not yet visited go with the loop frames *)
+          injection Hit as Hsg Hss. subst sg ssx. right. split; [exact Hinr|]. exists w. split; [reflexivity|].
+          apply (returned_rebase im ss1 sx (assign ss1 x v) s5 (4 + (1 + 1))%nat ([] ++ ([] ++ [])) sb E45); [| |cbn [app]; rewrite app_nil_r, Htrx; reflexivity|exact Hret].
+          { rewrite Hct5, Hctx. reflexivity. }
+          { rewrite (loop_ret_stack s s5 lv r5 rest Hfr5 Her5' Hst5 (Hd Hinr)), (loop_ret_stack s sx lv r (v :: rest) Hfrx Herx Hstx (Hd Hinr)). reflexivity. }
       - (* no name is left *)
         injection Hit as Hsg Hss. subst ssx.
         set (s4 := with_pc s3 (m_pc s3 + (1 + kB + K + 2))) in *.
         assert (Hfe4 : fetch im (m_pc s4) = Some (I0 OC_END_LOOP)).
         { unfold s4. cbn [with_pc m_pc]. rewrite Hpc3. replace (P0 + 1 + kN + 4 + (1 + kB + K + 2)) with (P0 + 1 + kN + 4 + 1 + (1 + kB + K) + 1) by lia. exact Hfe. }
         destruct (end_loop_step_extra im ss1 s4 s lv r names (sim_with_pc ss1 s3 _ Hs3) Hfe4 Hfrx Herx Hstx) as (s5 & E5 & Hs5 & Hpc5 & Hst5).
-        split; [auto|]. exists (4 + (1 + 1))%nat, s5, ([] ++ ([] ++ [])).
+        left. split; [auto|]. exists (4 + (1 + 1))%nat, s5, ([] ++ ([] ++ [])).
         split; [eapply esteps_app; [exact Et|eapply esteps_app; [exact Ej|exact E5]]|].
         split; [exact Hs5|]. split; [rewrite Hpc5; unfold s4; cbn [with_pc m_pc]; rewrite Hpc3; lia|].
         split; [exact Hst5|]. rewrite app_nil_r. reflexivity. }
-    destruct (Hiter f' ssp s2 sig ss' lv2 names0 r2 ltac:(lia) Hs2) as [Hsig (n & sy & evs & En & Hsy & Hpcy & Hsty & Hty)].
+    destruct (Hiter f' ssp s2 sig ss' lv2 names0 r2 ltac:(lia) Hs2) as [[Hsig (n & sy & evs & En & Hsy & Hpcy & Hsty & Hty)]|[Hinr [w [Hsig Hret]]]].
     { rewrite Hpc2. unfold s1. cbn [advance with_pc with_frames with_vars m_pc]. fold P0. lia. }
     { exact Hfk2. }
     { exact Her2. }
@@ -1113,10 +1149,14 @@ Proof.
     { exact Hidx2. }
     { exact Hsk2. }
     { exact He'. }
-    left. split; [exact Hsig|]. exists (1 + (nN + n))%nat, sy, ([] ++ ([] ++ evs)).
-    split; [eapply esteps_app; [exact E1|eapply esteps_app; [exact HnN|exact En]]|]. split; [exact Hsy|].
-    split; [rewrite Hpcy; unfold K, kN, kB, zlength; rewrite !app_length; cbn [length]; rewrite !Nat2Z.inj_add; change (Z.of_nat (length counter_test)) with 4; lia|].
-    split; [exact Hsty|]. rewrite Hty, Htr0. reflexivity.
+    + left. split; [exact Hsig|]. exists (1 + (nN + n))%nat, sy, ([] ++ ([] ++ evs)).
+      split; [eapply esteps_app; [exact E1|eapply esteps_app; [exact HnN|exact En]]|]. split; [exact Hsy|].
+      split; [rewrite Hpcy; unfold K, kN, kB, zlength; rewrite !app_length; cbn [length]; rewrite !Nat2Z.inj_add; change (Z.of_nat (length counter_test)) with 4; lia|].
+      split; [exact Hsty|]. rewrite Hty, Htr0. reflexivity.
+    + right. right. split; [exact Hinr|]. exists w. split; [exact Hsig|].
+      assert (E12 : esteps (1 + nN) im s = Some (s2, [] ++ [])) by (eapply esteps_app; [exact E1|exact HnN]).
+      apply (returned_rebase im ss s ssp s2 (1 + nN)%nat ([] ++ []) ss' E12); [|exact (loop_ret_stack s s2 lv2 r2 names0 Hfk2 Her2 Hsk2 (Hd Hinr))|rewrite Htr0; symmetry; apply app_nil_r|exact Hret].
+      rewrite Hfk2. cbn [call_tail]. apply call_tail_fr_eq. exact Her2.
   - (* empty sequence *)
     intros inl inr after im ss s sig ss' fuel Hle _ _ _ _ Hsim Hc He. destruct fuel as [|fuel]; [discriminate|]. rewrite exec_seq_nil in He.
     injection He as Hsig He. subst ss'. left. split; [auto|]. rewrite c_block_nil. unfold zlength. cbn [length]. rewrite Z.add_0_r.
@@ -1134,7 +1174,7 @@ Proof.
     destruct (IHst after_st im ss s sg sa fuel ltac:(lia) Hload (in_loop_ok_map inl after _ Hin) Hir Hd Hsim Hc1 Est) as [[Hsg (n1 & s1 & e1 & E1 & Hs1 & Hpc1 & Hst1 & Ht1)]|[[Hsg (a' & Ha' & Hto)]|[Hinr [v [Hsg Hret]]]]].
     + subst sg.
       assert (Hc2' : code_at im (m_pc s1) rest) by (rewrite Hpc1; exact Hc2).
-      destruct (fr_eq_facts s1 s Hst1) as [Hsk1 [Hct1 Hdp1]].
+      destruct (fr_eq_facts s1 s Hst1) as [Hsk1 [Hct1 [Hdp1 _]]].
       assert (Hir1 : in_ret_ok inr (m_frames s1)) by (intros Hi; destruct (Hir Hi) as (ret & F & H); exists ret, F; rewrite Hct1; exact H).
       assert (Hd1 : in_depth_ok inr s1) by (intros Hi; rewrite Hsk1; apply Hdp1; exact (Hd Hi)).
       pose proof (IHr after im sa s1 sig ss' fuel ltac:(lia) Hload Hin Hir1 Hd1 Hs1 Hc2' He) as Ho.
@@ -1178,7 +1218,7 @@ Theorem structured_control_leads_where_the_source_says :
                                         m_pc s' = m_pc s + zlength (c_stmt rt mt false after st) + a /\
                                         (m_stack s', fr s') = (m_stack s, fr s)) \/
   (exists v, sig = SigReturn v /\ exists ret F n s' evs, call_tail (m_frames s) = Some (ret, F) /\ esteps n im s = Some (s', evs) /\
-                                        m_pc s' = ret + 1 /\ m_frames s' = F /\ m_stack s' = m_stack s).
+                                        m_pc s' = ret + 1 /\ m_frames s' = F /\ m_stack s' = ret_stack (m_frames s) (m_stack s)).
 Proof.
   intros rt mt Hbodies inl inr st Hst after im ss s sig ss' fuel Hload Hin Hir Hd Hsim Hc He.
   destruct (proj1 (simpleB_simulation rt mt Hbodies) inl inr st Hst after im ss s sig ss' fuel Hload Hin Hir Hd Hsim Hc He)
@@ -1236,19 +1276,17 @@ Proof. intros rt mt Hbodies inr n v start body Hn Ha. exact (indexed_loop_simula
 
 (* loops over lights (C04): `repeat all as x`, `repeat group as g`, `repeat location as l`, each with or without a `with` clause:
    the preparation code pushes the names -- for every population, an empty name included -- and counts them; every pass binds the
-   next name, in name order, each exactly once; the body may break (the names not yet visited go with the loop frame) but not return *)
+   next name, in name order, each exactly once; the body may break or return (the names not yet visited go with the loop frame: END_LOOP and RETURN cut the stack back) *)
 Theorem light_loop_simulation :
-  forall rt mt, bodies_ok rt mt -> forall l x ov pre body, light_form rt mt l x ov pre -> SimpleB rt mt true false body ->
-  forall after im ss s sig ss' fuel, routines_loaded rt mt im -> sim ss s ->
+  forall rt mt, bodies_ok rt mt -> forall (inr : bool) l x ov pre body, light_form rt mt l x ov pre -> SimpleB rt mt true inr body ->
+  forall after im ss s sig ss' fuel, routines_loaded rt mt im -> in_ret_ok inr (m_frames s) -> in_depth_ok inr s -> sim ss s ->
   code_at im (m_pc s) (c_stmt rt mt false after (SRepeat l body)) ->
   Sem.exec rt mt fuel false ss (SRepeat l body) = ROk sig ss' ->
-  outcome false after im ss s sig ss' (c_stmt rt mt false after (SRepeat l body)).
+  outcome inr after im ss s sig ss' (c_stmt rt mt false after (SRepeat l body)).
 Proof.
-  intros rt mt Hbodies l x ov pre body Hform Hbody after im ss s sig ss' fuel Hload Hsim Hc He.
+  intros rt mt Hbodies inr l x ov pre body Hform Hbody after im ss s sig ss' fuel Hload Hir Hd Hsim Hc He.
   assert (Hil : in_loop_ok false after) by (intros H; discriminate).
-  assert (Hir : in_ret_ok false (m_frames s)) by (intros H; discriminate).
-  assert (Hd : in_depth_ok false s) by (intros H; discriminate).
-  exact (proj1 (simpleB_simulation rt mt Hbodies) false false _ (B_lights rt mt false false l x ov pre body Hform Hbody) after im ss s sig ss' fuel Hload Hil Hir Hd Hsim Hc He).
+  exact (proj1 (simpleB_simulation rt mt Hbodies) false inr _ (B_lights rt mt false inr l x ov pre body Hform Hbody) after im ss s sig ss' fuel Hload Hil Hir Hd Hsim Hc He).
 Qed.
 
 (* a call: the arguments are evaluated in the caller's scope, the body runs with the parameters as its own variables (by
@@ -1305,10 +1343,10 @@ Fixpoint simpleB_b (fuel : nat) (inl inr : bool) (st : stmt) : bool :=
       | SRepeat (LRange v x y) a => plain_rval mt x && plain_rval mt y && simpleB_b f true inr a
       | SRepeat (LCountWith n (WRange v x y)) a => plain_rval mt n && plain_rval mt x && plain_rval mt y && simpleB_b f true inr a
       | SRepeat (LCountWith n (WCycle v start)) a => plain_rval mt n && plain_opt mt start && simpleB_b f true inr a
-      | SRepeat (LAll x w) a => plain_with_opt mt w && simpleB_b f true false a
-      | SRepeat (LGroups x w) a => plain_with_opt mt w && simpleB_b f true false a
-      | SRepeat (LLocations x w) a => plain_with_opt mt w && simpleB_b f true false a
-      | SRepeat (LIn srcs x w) a => forallb (plain_src mt) srcs && plain_with_opt mt w && simpleB_b f true false a
+      | SRepeat (LAll x w) a => plain_with_opt mt w && simpleB_b f true inr a
+      | SRepeat (LGroups x w) a => plain_with_opt mt w && simpleB_b f true inr a
+      | SRepeat (LLocations x w) a => plain_with_opt mt w && simpleB_b f true inr a
+      | SRepeat (LIn srcs x w) a => forallb (plain_src mt) srcs && plain_with_opt mt w && simpleB_b f true inr a
       | _ => false
       end
   end.
